@@ -88,8 +88,18 @@ def scopes : Handler := fun req => do
       let variants := ((arr (fieldD d "variants" (Json.arr #[]))).toOption.getD []).map (sOf · "name")
       let isParam := nm.endsWith "Path" || nm.endsWith "Query" || nm.endsWith "Header"
       if !(dupOf fields).isEmpty then
+        -- F09-9: a property spelled like the flattened map member `additional_properties` of typed additionalProperties
+        let schF := fieldD (fieldD (fieldD (fieldD inp "spec" Json.null) "components" Json.null) "schemas" Json.null) nm Json.null
+        let addlTyped := match schF.getObjVal? "additionalProperties" with | .ok (.obj _) => true | _ => false
+        if dupOf fields == ["additional_properties"] && addlTyped then
+          return verdict false ["KnownAddlPropsFieldClash"] s!"struct {nm}: duplicate field {dupOf fields}"
         return verdict false (if isParam then ["KnownParamFieldClash"] else if fields.any (fun f => (f.toList.reverse.takeWhile Char.isDigit).length > 0) then ["KnownDedupSuffixClash"] else []) s!"struct {nm}: duplicate field {dupOf fields}"
-      if !(dupOf variants).isEmpty then return verdict false [] s!"enum {nm}: duplicate variant {dupOf variants}"
+      if !(dupOf variants).isEmpty then
+        -- F09-8: the variants of a discriminated base are its children's names with the base's name stripped, plus a fall-back
+        -- variant named after the base's last word; nothing keeps them apart (`BillingEvent` + `Event`; `Pet` + `Cat`, `PetCat`)
+        let sch := fieldD (fieldD (fieldD (fieldD inp "spec" Json.null) "components" Json.null) "schemas" Json.null) nm Json.null
+        let isDiscBase := (sch.getObjVal? "discriminator").toOption.isSome
+        return verdict false (if isDiscBase then ["KnownDiscVariantNameClash"] else []) s!"enum {nm}: duplicate variant {dupOf variants}"
       for f in fields do
         if !legal .field f.toList then return verdict false [] s!"struct {nm}: illegal field identifier {f}"
       for v in variants do
